@@ -48,6 +48,9 @@ pub struct Ctx {
     pub jobs: usize,
     /// Multiplier on the number of cases (for Miri and smoke runs).
     pub scale: f64,
+    /// Explicit number of cases (overrides the tier's number; used by the
+    /// interpreter legs, which can only afford a handful).
+    pub cases_override: Option<usize>,
     /// Wall-clock cap in seconds for the generation loop (safety net; a run
     /// that hits it reports what it covered).
     pub time_cap_s: u64,
@@ -56,6 +59,9 @@ pub struct Ctx {
 
 impl Ctx {
     pub fn cases(&self, quick: usize, thorough: usize) -> usize {
+        if let Some(n) = self.cases_override {
+            return n;
+        }
         let n = match self.tier {
             Tier::Quick => quick,
             Tier::Thorough => thorough,
@@ -158,6 +164,35 @@ fn main() {
             c07::child(seed, runs, &out, thorough);
             run::cleanup_scratch();
         }
+        "c07-stress" | "c07-miri" => {
+            let mut seed = 0u64;
+            let mut runs = 10usize;
+            let mut out = String::new();
+            let mut i = 2;
+            while i + 1 < args.len() {
+                match args[i].as_str() {
+                    "--seed" => seed = args[i + 1].parse().unwrap(),
+                    "--runs" => runs = args[i + 1].parse().unwrap(),
+                    "--out" => out = args[i + 1].clone(),
+                    _ => usage(),
+                }
+                i += 2;
+            }
+            let rep = if args[1] == "c07-miri" {
+                c07::miri_walks(seed)
+            } else {
+                let mut rep = report::Report::new();
+                c07::stress(seed, runs, &mut rep);
+                rep
+            };
+            let text = serde_json::to_string(&rep.to_json()).unwrap();
+            if out.is_empty() {
+                println!("{}", text);
+            } else {
+                std::fs::write(&out, text).expect("write report");
+            }
+            run::cleanup_scratch();
+        }
         "ref" => {
             let mut text = String::new();
             std::io::Read::read_to_string(&mut std::io::stdin(), &mut text)
@@ -204,6 +239,7 @@ fn main() {
                     .map(|n| n.get())
                     .unwrap_or(4),
                 scale: 1.0,
+                cases_override: None,
                 time_cap_s: 3600,
                 start: std::time::Instant::now(),
             };
@@ -221,6 +257,9 @@ fn main() {
                     "--seed" => ctx.seed = val.unwrap().parse().unwrap(),
                     "--jobs" => ctx.jobs = val.unwrap().parse().unwrap(),
                     "--scale" => ctx.scale = val.unwrap().parse().unwrap(),
+                    "--cases" => {
+                        ctx.cases_override = Some(val.unwrap().parse().unwrap())
+                    }
                     "--time-cap" => {
                         ctx.time_cap_s = val.unwrap().parse().unwrap()
                     }
